@@ -220,3 +220,8 @@ def check(cx):
     from . import c06
     cx.include(c06, {"C06.3"}, "C07.8", "shared with C06.3: the unique index is what UNIQUE is judged by, so its maintenance arms must keep an entry "
                "per live row under the row's current key, stamped with the right creator and deleter", floor=6)
+
+    # ---- C07.9 (construct shared with C15.8) ---------------------------------------------------------------------------
+    from . import c15
+    cx.include(c15, {"C15.8"}, "C07.9", "shared with C15.8: the logged inverse of a NOT NULL change restores the recorded previous state; recovery "
+               "that undoes a redundant SET NOT NULL must not drop the constraint (NULLs would then be accepted and committed)", floor=4)
